@@ -21,7 +21,8 @@ LEVEL_TEXT = 'State-space walk: all 156 operation sequences of length <= 3 over 
 TECHNIQUE = 'state-space walk (all op sequences <= 3) with fingerprint equality + mutate-one-side independence checker'
 RULE = ('samples {integer big/little endian, float32/64, with/without optional metadata, zero-event} x ALL sequences of '
         '<= 3 operations over {slice channels, slice events, to RFI, to MEF, gate} (156, exhaustive) x {copy, copy.copy, '
-        'deepcopy, view, pickle 0..5}; non-trivial = state reached by >= 1 operation; distinct = (sample, sequence, duplication)')
+        'deepcopy, view, pickle 0..5}; non-trivial = state reached by >= 1 operation; distinct = (sample, sequence, duplication)'
+        ' Also: the generic transformation with a NumPy function as an analysis state, selections that leave no event.')
 ASSUMPTIONS = ['byte order is not part of equality (pickling legitimately normalises it); kind and itemsize are']
 MIN_CHECKS = {'quick': 12000, 'thorough': 250000}
 EXHAUSTIVE = {'quick': True, 'thorough': True}
